@@ -34,7 +34,7 @@ NOT_DECIDED = ["text of mis-nested *removable* elements of different names (inhe
                "html.parser's own tokenisation (CDATA content mode of script/style, attribute parsing)"]
 TRUSTED = ["html.parser emits handle_starttag for every start tag, handle_endtag for every end tag, none for void elements' (absent) end tags, and handle_startendtag (default: start then end) for self-closing tags",
            "abstract interpreter sa/engine/objinterp.py"]
-FLOORS = {"C17-SKIP": 400, "C17-N4": 4, "C17-N5": 2, "C17-EOF": 3, "C17-FRESH": 3, "C17-TREE": 2}
+FLOORS = {"C17-TOK": 2, "C17-GUARD": 5, "C17-SKIP": 400, "C17-N4": 4, "C17-N5": 2, "C17-EOF": 3, "C17-FRESH": 3, "C17-TREE": 2}
 
 REMOVABLE = ["script", "style", "noscript", "iframe", "object", "embed", "applet"]
 HTML_VOID = {"area", "base", "br", "col", "embed", "hr", "img", "input", "link", "meta", "param", "source", "track", "wbr"}
@@ -617,4 +617,97 @@ def rule_eof(ctx: Ctx) -> RuleReport:
     return rep
 
 
-RULES = [rule_skip, rule_n4, rule_n5, rule_tree, rule_fresh, rule_eof]
+# names html.parser / _markupbase use for the tokenizer itself (CPython 3.8 - 3.13): everything but the handle_* callbacks
+_TOKENIZER = {"CDATA_CONTENT_ELEMENTS", "RCDATA_CONTENT_ELEMENTS", "feed", "close", "get_starttag_text", "set_cdata_mode", "clear_cdata_mode", "goahead", "parse_html_declaration", "parse_bogus_comment",
+              "parse_pi", "parse_starttag", "check_for_whole_start_tag", "parse_endtag", "parse_declaration", "parse_marked_section", "parse_comment", "updatepos", "getpos",
+              "_parse_doctype_subset", "_parse_doctype_element", "_parse_doctype_attlist", "_parse_doctype_notation", "_parse_doctype_entity", "_scan_name", "_decl_otherchars",
+              "cdata_elem", "interesting", "lasttag", "rawdata", "convert_charrefs", "_support_cdata", "_escapable"}
+
+
+def rule_tok(ctx: Ctx) -> RuleReport:
+    """C17-SKIP explores the callbacks against the tokenizer of the standard library as it is: every start and end tag inside a removed
+    element is reported (only script and style are raw text), which is what the nesting counter counts. A subclass that reconfigures the
+    tokenizer (raw-text elements, cdata mode, its own parse_* methods) leaves that model: in raw-text mode the element ends at the first
+    '</name' -- inside a comment or of a nested element of the same name -- and the rest of its content is visible text."""
+    rep = RuleReport("C17-TOK", "the HTMLParser subclasses override callbacks only: no tokenizer attribute or method of html.parser is redefined, assigned or called to switch modes")
+    for cls in _parsers(ctx):
+        rep.unit(cls.module.rel + "::" + cls.name)
+        bad = []
+        for st in cls.node.body:
+            names = []
+            if isinstance(st, (ast.FunctionDef, ast.AsyncFunctionDef)):
+                names = [st.name]
+            elif isinstance(st, ast.Assign):
+                names = [t.id for t in st.targets if isinstance(t, ast.Name)]
+            elif isinstance(st, ast.AnnAssign) and isinstance(st.target, ast.Name):
+                names = [st.target.id]
+            for nme in names:
+                if nme in _TOKENIZER:
+                    bad.append((st, f"class attribute {nme} redefined"))
+        for mth in cls.methods.values():
+            for x in ast.walk(mth.node):
+                if isinstance(x, ast.Attribute) and isinstance(x.value, ast.Name) and x.value.id == "self" and x.attr in _TOKENIZER:
+                    if isinstance(x.ctx, (ast.Store, ast.Del)) and x.attr != "rawdata":
+                        bad.append((x, f"self.{x.attr} assigned in {mth.name}"))
+                if isinstance(x, ast.Call) and isinstance(x.func, ast.Attribute) and isinstance(x.func.value, ast.Name) and x.func.value.id == "self" and x.func.attr in ("set_cdata_mode", "clear_cdata_mode"):
+                    bad.append((x, f"self.{x.func.attr}() called in {mth.name}"))
+        if bad:
+            for node, what in bad:
+                rep.fail(Finding("C17-TOK", cls.module.rel, cls.name, what, f"{cls.name}: {what} (`{short(node, 60)}`): the tokenizer no longer reports the tags inside those elements, so the nesting counter of the removal logic stays at 1 and the element ends at the first '</name' it contains: `<object><object>a</object>FALLBACK</object>` and `<noscript><!-- </noscript> -->HIDDEN</noscript>` put FALLBACK / HIDDEN into the text", line=node.lineno))
+        else:
+            rep.ok({"parser": cls.name, "overrides": sorted(m for m in cls.methods)})
+    return rep
+
+
+def rule_guard(ctx: Ctx) -> RuleReport:
+    """While a removed element is open nothing is emitted: in every callback the test of the suppression state comes before the first
+    statement that writes parser state (output, tree, flags)."""
+    rep = RuleReport("C17-GUARD", "in every handle_* callback that writes parser state, the early return while suppressed precedes the first write")
+    n = 0
+    for cls in _parsers(ctx):
+        hd = cls.methods.get("handle_data")
+        if hd is None:
+            raise AnalysisError(f"C17-GUARD: {cls.name} lacks handle_data")
+        guard = next((i for i in hd.node.body if isinstance(i, ast.If) and i.body and isinstance(i.body[-1], ast.Return)), None)
+        if guard is None:
+            raise AnalysisError(f"C17-GUARD: {cls.name}.handle_data has no early return while suppressed")
+        skip_attrs = {a.attr for a in ast.walk(guard.test) if isinstance(a, ast.Attribute) and isinstance(a.value, ast.Name) and a.value.id == "self"}
+
+        def writes(st):
+            for x in ast.walk(st):
+                if isinstance(x, ast.Attribute) and isinstance(x.ctx, ast.Store) and isinstance(x.value, ast.Name) and x.value.id == "self":
+                    return x
+                if isinstance(x, ast.Call) and isinstance(x.func, ast.Attribute) and x.func.attr in ("append", "extend", "insert", "pop", "update", "setdefault", "add", "remove", "clear", "write") \
+                        and any(isinstance(y, ast.Attribute) and isinstance(y.value, ast.Name) and y.value.id == "self" for y in ast.walk(x.func.value)):
+                    return x
+                if isinstance(x, ast.Call) and isinstance(x.func, ast.Attribute) and isinstance(x.func.value, ast.Name) and x.func.value.id == "self" and x.func.attr in cls.methods and not x.func.attr.startswith("handle_") \
+                        and any(isinstance(y, ast.Attribute) and isinstance(y.ctx, ast.Store) for y in ast.walk(cls.methods[x.func.attr].node)):
+                    return x
+                if isinstance(x, ast.Subscript) and isinstance(x.ctx, ast.Store) and any(isinstance(y, ast.Attribute) and isinstance(y.value, ast.Name) and y.value.id == "self" for y in ast.walk(x.value)):
+                    return x
+            return None
+
+        for name, mth in sorted(cls.methods.items()):
+            if not name.startswith("handle_") and name != "unknown_decl":
+                continue
+            body = mth.node.body
+            if not any(writes(st) for st in body):
+                continue
+            n += 1
+            rep.unit(mth.key)
+            # delegation: handle_startendtag that only calls the guarded callbacks
+            first_write = next((i for i, st in enumerate(body) if writes(st)), None)
+            gi = next((i for i, st in enumerate(body) if isinstance(st, ast.If) and st.body and isinstance(st.body[-1], ast.Return) and not st.orelse
+                       and {a.attr for a in ast.walk(st.test) if isinstance(a, ast.Attribute) and isinstance(a.value, ast.Name) and a.value.id == "self"} & skip_attrs), None)
+            if gi is not None and gi <= first_write:
+                # the guard statement itself may write the suppression state (depth bookkeeping) -- that is C17-TREE / C17-SKIP's matter
+                rep.ok({"callback": mth.qual, "guard": short(body[gi].test, 40), "statements_before": gi})
+            else:
+                w = writes(body[first_write])
+                rep.fail(Finding("C17-GUARD", cls.module.rel, mth.qual, "state written before the suppression test: " + norm(w)[:80], f"`{short(w, 60)}` in {mth.qual} runs before (or without) the `{short(guard.test, 30)}` test: it also runs for tags and text inside a removed element, so content of <noscript> / <object> / <iframe> (the alt text of the tracking pixel in <noscript><img alt=...></noscript>) reaches the text", line=w.lineno))
+    if n < 5:
+        raise AnalysisError(f"C17-GUARD: only {n} state-writing callbacks found (6 confirmed)")
+    return rep
+
+
+RULES = [rule_skip, rule_n4, rule_n5, rule_tree, rule_fresh, rule_eof, rule_tok, rule_guard]
